@@ -196,6 +196,15 @@ impl ZoneCursorLoader {
 
                 let mut payload_fields = HashMap::new();
                 for field in &schema_fields {
+                    // An optional field that is absent from every event of this segment has
+                    // no column files at all: every cell of the zone is null.
+                    if !segment_dir
+                        .join(format!("{}_{}.col", self.uid, field))
+                        .exists()
+                    {
+                        payload_fields.insert(field.clone(), Vec::new());
+                        continue;
+                    }
                     let snapshot = ColumnReader::load_for_zone_snapshot(
                         &segment_dir,
                         segment_id,
